@@ -20,6 +20,9 @@ func (p *Program) extraCoverage(prop string) map[string]interface{} {
 	if p.audits != nil {
 		out["assumption_audits"] = p.audits
 	}
+	if p.benign != nil {
+		out["selftest_benign_corpus"] = p.benign
+	}
 	if p.selftest != nil {
 		out["selftest_must_fail_corpus"] = p.selftest
 	}
